@@ -18,8 +18,59 @@ PARTIAL = ['for connection variables "describes the instance" is checked through
            'reading the matrix back from the variables']
 CONN_CLAUSES = ('enumerated-row-does-not-decode-to-itself', 'corrected-vector-not-a-fixed-point', 'second-decode-gives-another-architecture',
                 'two-rows-one-architecture')
-batches = _proc.add_conn_batch(_proc.make_batches('C03', ['complete', 'fast'], 1200, 6000, cons_prob=0.25), 'C03')
-run_case = _proc.wrap_run_case(_proc.make_run_case(CLAUSES), CONN_CLAUSES)
-compare = _proc.compare
-shrink_candidates = _proc.wrap_shrink(_proc.shrink_candidates)
-match_known = _proc.wrap_match_known(dsgcase.match_known)
+RULE += ('; third batch: one connection choice at the level of its assignment manager (every registered encoder family, the '
+         'amount-first encoders with three nodes on a side): two different vectors that are both fixed points of the decode '
+         'never give the same connection matrix')
+_base_batches = _proc.add_conn_batch(_proc.make_batches('C03', ['complete', 'fast'], 1200, 6000, cons_prob=0.25), 'C03')
+_base_run = _proc.wrap_run_case(_proc.make_run_case(CLAUSES), CONN_CLAUSES)
+
+
+def batches(tier, seed):
+    from props import C10
+    for b_ in _base_batches(tier, seed):
+        yield b_
+    enc = []
+    for name, cases in C10.batches(tier, seed + 977):
+        if name == 'corpus':
+            continue
+        keep = cases if name.startswith('three-nodes') else cases[:60 if tier == 'quick' else 600]
+        for c in keep:
+            enc.append(dict(c, _converse=True, _enc=True))
+    yield 'connection-encoders-fixed-points', enc
+
+
+def run_case(case):
+    if not case.get('_enc'):
+        return _base_run(case)
+    from props import C10
+    r = C10.run_case(case)
+    f = r.get('fail')
+    if f is not None and f.get('clause') != 'two-corrected-vectors-one-matrix':
+        # everything else the encoder check finds is C10's business
+        r = {'skip': 'encoder-failure-of-another-property:' + f['clause'].split(':')[0], 'tags': r.get('tags', [])}
+    elif f is None:
+        r = dict(r, queries=[], impl={'enc': True})
+    return r
+
+
+def compare(case, r, ms):
+    if case.get('_enc'):
+        return None
+    return _proc.compare(case, r, ms)
+
+
+_base_shrink = _proc.wrap_shrink(_proc.shrink_candidates)
+_base_match = _proc.wrap_match_known(dsgcase.match_known)
+
+
+def shrink_candidates(case):
+    if case.get('_enc'):
+        import matcase
+        return (dict(c, **{k: v for k, v in case.items() if k.startswith('_')}) for c in matcase.shrink({k: v for k, v in case.items() if not k.startswith('_')}))
+    return _base_shrink(case)
+
+
+def match_known(case, fail, known):
+    if case.get('_enc'):
+        return None
+    return _base_match(case, fail, known)
